@@ -18,6 +18,7 @@ user / PermissionDenied / other exception / hang / runaway).
 """
 
 import asyncio
+import os
 
 import asyncssh
 from asyncssh import connection as _c
@@ -716,8 +717,19 @@ async def _listen_raw(cfg, result, rec):
 # one case
 # ---------------------------------------------------------------------------
 
+def _neutral_home():
+    """client_keys=[] (agent only) makes asyncssh look into ~/.ssh: make
+    sure there is nothing to find (./check already points HOME there)"""
+    if os.path.isdir(os.path.expanduser('~/.ssh')):
+        home = os.path.join(os.path.dirname(os.path.dirname(os.path.dirname(
+            os.path.abspath(__file__)))), '.work', 'home')
+        os.makedirs(home, exist_ok=True)
+        os.environ['HOME'] = home
+
+
 def run_case(cfg, backend):
     """-> observation dict"""
+    _neutral_home()
     loop = new_loop()
     loop.max_iterations = 60000         # a session needs a few hundred
     rec = Recorder()
@@ -794,19 +806,6 @@ def replay_task(task):
 # ---------------------------------------------------------------------------
 # specification value -> comparable form
 # ---------------------------------------------------------------------------
-
-def norm_dialogue(dlg):
-    """TLC prints sequences/tuples as lists already; booleans as bool"""
-    out = []
-    for ev in dlg:
-        ev = list(ev)
-        if ev and ev[0] == 'F':
-            ev = ['F', list(ev[1]), bool(ev[2])]
-        elif ev and ev[0] == 'resp':
-            ev = ['resp', list(ev[1])]
-        out.append(ev)
-    return out
-
 
 def describe(cfg):
     s = cfg['srv']
